@@ -60,6 +60,21 @@ func c03(c *Ctx) {
 	tr := an.NewTracer()
 	r.Rule("R03.A", "a packet a conformant server sealed is opened: the success exit of the two readers and of transport.ReadMsg is reachable for every msg_id with low bits 01 / 11, whatever its sign (ids of 2038 and later are negative as int64) and for every honest combination of packet length, declared length and 0..15 padding bytes", 4)
 	c03Acceptance(c)
+	// the sender (any caller's goroutine) and the receive loop run the envelope code at the same time, and nothing
+	// serialises a send against a receive: scratch space shared through a package variable mixes the two key derivations
+	r.Rule("R03.G", "nothing reachable from the envelope writers and readers (Serialize, DeserializeEncrypted, DeserializeUnencrypted) writes a package-level variable or appends / copies into the storage of one: a send and a receive overlap freely", 1)
+	{
+		var entries []*ssa.Function
+		for _, e := range []struct{ recv, name string }{{"*Encrypted", "Serialize"}, {"*Unencrypted", "Serialize"}, {"", "DeserializeEncrypted"}, {"", "DeserializeUnencrypted"}} {
+			if f := c.P.Func(load.MsgPkg, e.recv, e.name); f != nil {
+				entries = append(entries, f)
+			}
+		}
+		if len(entries) < 4 {
+			r.Undecide("R03.G", "global-write:entries", "", sprintf("expected 4 envelope entry points, found %d", len(entries)))
+		}
+		c.noGlobalWrites("R03.G", entries, "the envelope path: a send and a receive that overlap both use it")
+	}
 	r.Rule("R03.K", "key schedule: the aes_key / aes_iv expressions extracted from generateAESIGE (both directions) are the MTProto 1.0 formulas — every window of auth_key, every SHA-1 input order, every digest slice", 4)
 	if c.verifySummaries("R03.K") {
 		c.keySchedule("R03.K")
@@ -264,7 +279,7 @@ func c03(c *Ctx) {
 		var got []string
 		for _, b := range f.Blocks {
 			for _, in := range b.Instrs {
-				if ret, ok2 := in.(*ssa.Return); ok2 && len(ret.Results) == 1 {
+				if ret, ok2 := an.AsReturn(in); ok2 && len(ret.Results) == 1 {
 					o := tr.OriginString(an.RetVal(ret, 0))
 					got = append(got, simplifyOrigin(o))
 					if (strings.Contains(o, "Sha1") || strings.Contains(o, "sha1.Sum")) && (strings.HasSuffix(o, "["+lo+":"+hi+"]") || hi == "20" && strings.HasSuffix(o, "["+lo+":]")) {
@@ -504,7 +519,7 @@ func c03Acceptance(c *Ctx) {
 			var bad []string
 			nret := 0
 			for _, b := range f.Blocks {
-				ret, ok := b.Instrs[len(b.Instrs)-1].(*ssa.Return)
+				ret, ok := an.AsReturn(b.Instrs[len(b.Instrs)-1])
 				if !ok || !reach[b] || len(ret.Results) != 2 {
 					continue
 				}
